@@ -46,15 +46,26 @@ fn rand_batch<T: Tab + Send>(op: &Value, out: &mut Vec<Value>) {
     hdr.insert("ty".into(), json!(T::TY));
     hdr.insert("out".into(), json!("ok"));
     out.push(Value::Object(hdr));
+    // draws of other sizes made by the same thread just before the batch (not part of the batch): a generator
+    // that keeps per-thread state between calls must not depend on what was drawn before
+    let warm: Vec<usize> = op.get("warm").map(|_| exec::arg_list(op, "warm")).unwrap_or_default();
+    let warm_up = move |w: &[usize]| {
+        for &k in w {
+            let _ = std::panic::catch_unwind(|| Lut::random(k));
+        }
+    };
     let results: Vec<Vec<Value>> = if threads <= 1 {
+        warm_up(&warm);
         vec![(0..count).map(|_| draw::<T>(n)).collect()]
     } else {
         let barrier = std::sync::Arc::new(std::sync::Barrier::new(threads));
         let handles: Vec<_> = (0..threads)
             .map(|_| {
                 let b = barrier.clone();
+                let w = warm.clone();
                 std::thread::spawn(move || {
                     b.wait();
+                    warm_up(&w);
                     (0..count).map(|_| draw::<T>(n)).collect::<Vec<Value>>()
                 })
             })
